@@ -19,7 +19,14 @@ def _generic_command_name(v):
                for it in GM.walk_items(m['items']))
 
 
+def _stale_declaration(v):
+    m = v.get('module')
+    if m is None: return False
+    return GM.well_formed(m, documented_impl=True)[1] == 'declaration not followed by its definition'
+
+
 MATCHERS = {
+    'declaration_never_implemented': _stale_declaration,
     'documented_class_with_cpp_class_flag_off': _documented_class_hidden,
     'command_named_generic_command': _generic_command_name,
     'doc_prefix_in_plain_comment': lambda v: v.get('tag') == 'K3',
